@@ -26,7 +26,7 @@ def judge(rec, variants):
     for style, plain in variants:
         for cfgname in g["cfgs"]:
             n += 1
-            oc, got, _ = mergeobs.run_merge(rec["l"], rec["r"], cfgname, style, plain)
+            oc, got, _ = mergeobs.run_merge(rec["l"], rec["r"], "/".join(cfgname.split("/")[:4]), style, plain)
             problem = None
             if oc == "crash":
                 problem = ("crash", got)
@@ -61,7 +61,7 @@ def _strip(tab):
 def _dims(rec, cfgname):
     """Which policy dimensions can matter for this pair (for a stable, informative signature)."""
     kinds = {n["k"] for n in rec["r"]}
-    h, a, o, s = cfgname.split("/")
+    h, a, o, s = cfgname.split("/")[:4]
     parts = []
     if "map" in kinds:
         parts.append("hashes=" + h)
